@@ -1,6 +1,7 @@
 package main
 
 import (
+	"strings"
 	"encoding/json"
 	"fmt"
 	"os"
@@ -192,6 +193,29 @@ func (ev *Evidence) fill(outcomes []*harnessOutcome, rp *Replayer, d time.Durati
 		},
 		"technique": "bounded symbolic execution of go/ssa of the real functions; SMT (z3) decides each assertion over all inputs in the stated bounds; models replayed natively",
 		"exhaustive": false,
+	}
+	ev.Coverage["solver"].(map[string]interface{})["cvc5_fallback_answers"] = atomic.LoadInt64(&gStats.Cvc5)
+	if ev.Property == "C14" {
+		// translation validation: programs = corpus functions whose compiled code was compared
+		// with the Go function on this run; disagreements_checked = equivalence obligations decided
+		ev.Level = "translation_validation"
+		progs := map[string]bool{}
+		checked := 0
+		for _, oc := range outcomes {
+			for site := range oc.Run.SitesSeen {
+				if strings.HasSuffix(site, ":same-value") {
+					progs[strings.TrimSuffix(strings.TrimPrefix(site, "assert:"), ":same-value")] = true
+				}
+			}
+			for _, o := range oc.Run.Obls {
+				if strings.HasSuffix(o.Site, ":same-value") || strings.HasSuffix(o.Site, "VM-faults<=>Go-panics") {
+					checked++
+				}
+			}
+		}
+		ev.Coverage["programs"] = len(progs)
+		ev.Coverage["disagreements_checked"] = checked
+		ev.Coverage["technique"] = "translation validation: the real compiler's bytecode for each corpus function is executed symbolically in the real VM (go/ssa) next to the Go function itself; SMT decides result equality for all arguments in the bound; models replayed natively"
 	}
 	for a := range assume {
 		ev.Assumptions = append(ev.Assumptions, a)
